@@ -412,7 +412,7 @@ func atomicRun() {
 		export := func(name string, id int, get func() (int64, bool)) {
 			defer wg.Done()
 			r := s.rnd(id)
-			for {
+			for k := 0; c.Iters == 0 || k < c.Iters; k++ { // at most Iters exports: keeps the log small
 				select {
 				case <-stop:
 					return
